@@ -355,22 +355,22 @@ func cmdCheck(args []string) int {
 		"seed":        seed,
 		"level":       "proof",
 		"coverage": map[string]any{
-			"obligations":            nObl,
-			"discharged":             discharged + restricted,
-			"discharged_unrestricted": discharged,
+			"obligations":                          nObl,
+			"discharged":                           discharged + restricted,
+			"discharged_unrestricted":              discharged,
 			"discharged_restricted_known_findings": restricted,
-			"bounded":                0,
-			"checker_cmd":            *cmdline,
-			"trusted_base":           tb,
-			"samples":                samples,
-			"functions_under_contract": funcsUnder,
-			"contracts_relied_on":    used,
-			"backends":               backendCount,
-			"solver_ms_total":        solverMs,
-			"vacuity_covers":         covers,
-			"vacuity_covers_ok":      coverOK,
-			"known_findings":         knownLines,
-			"failed":                 len(violations),
+			"bounded":                              0,
+			"checker_cmd":                          *cmdline,
+			"trusted_base":                         tb,
+			"samples":                              samples,
+			"functions_under_contract":             funcsUnder,
+			"contracts_relied_on":                  used,
+			"backends":                             backendCount,
+			"solver_ms_total":                      solverMs,
+			"vacuity_covers":                       covers,
+			"vacuity_covers_ok":                    coverOK,
+			"known_findings":                       knownLines,
+			"failed":                               len(violations),
 		},
 		"assumptions": assumptions,
 		"wall_s":      time.Since(t0).Seconds(),
